@@ -51,6 +51,7 @@ ASSUMPTIONS = [
 N_VARIANTS = 4
 
 OBLIGATIONS = {
+    "result_table_is_its_own": "a result of each sequence operator got one more feature and the source still listed and read the same",
     "insert_into_size_1": "chronological insertion into a track of 1 observation",
     "insert_into_size_2": "chronological insertion into a track of 2 observations",
     "insert_into_size_4": "chronological insertion into a track of 4 observations",
@@ -631,6 +632,57 @@ def check_op(root, track, S, names, op, case, ctx):
     ctx.outcome((k, cls, len(rs)))
 
 
+TABLE_OPS = ["extract", "span", "add", "modk", "modp", "gt", "lt"]
+
+
+def check_table(root, track, names, kind, case, ctx):
+    """The feature table carried over to a result is the result's own: giving the result one more feature leaves the
+    names the source lists, and the values read under them, as they were.  Run on a clone of the state (the result of
+    an operator may share observation objects with its source; only what is read by name is compared)."""
+    variant = root["variant"]
+    src = clone(track)
+    n = src.size()
+    before = {nm: [float(v) for v in src.getAnalyticalFeature(nm)] for nm in names}
+    if kind == "extract":
+        fn = lambda: src.extract(0, n - 1)
+    elif kind == "span":
+        S = snap(src)
+        us = [s_unit(variant, r) for r in S]
+        ta, tb = alpha.obstime(secs(variant, min(us) - 1)), alpha.obstime(secs(variant, max(us) + 1))
+        fn = lambda: src.extractSpanTime(ta, tb)
+    elif kind == "add":
+        other = clone(track)
+        fn = lambda: src + other
+    elif kind == "modk":
+        fn = lambda: src % 1
+    elif kind == "modp":
+        fn = lambda: src % [True]
+    elif kind == "gt":
+        fn = lambda: src > 0
+    else:
+        fn = lambda: src < 0
+    key = "%s/result-gets-a-new-feature/" % {"extract": "extract", "span": "extractSpanTime", "add": "add", "modk": "mod-int",
+                                             "modp": "mod-pattern", "gt": "gt", "lt": "lt"}[kind]
+    ctx.case(True)
+    st, res = guard(fn)
+    if st != "ok":
+        return                      # judged by check_op
+    st, r = guard(res.createAnalyticalFeature, "zz", 7.0)
+    if st != "ok":
+        ctx.violation(key + ("does-not-return" if st == "hang" else "raises"), case, r)
+        return
+    st, after_names = guard(names_of, src)
+    if st != "ok" or after_names != names:
+        ctx.violation(key + "names-listed-by-the-source-changed", case, {"before": names, "after": after_names})
+        return
+    for nm in names:
+        st, vals = guard(src.getAnalyticalFeature, nm)
+        if st != "ok" or not isinstance(vals, list) or [float(v) for v in vals] != before[nm]:
+            ctx.violation(key + "values-read-from-the-source-changed", case, {"feature": nm, "before": before[nm], "after": vals})
+            return
+    ctx.oblige("result_table_is_its_own")
+
+
 def _col(track, nm, default):
     d = _dico(track)
     if d is not None and isinstance(d.get(nm), int):
@@ -649,6 +701,10 @@ def check_state(root, track, hist, ctx):
     for op in pure_ops(variant, S):
         check_op(root, track, S, names, op, dict(base, op=op), ctx)
         ctx.transition()
+    if names and S:
+        for kind in TABLE_OPS:
+            check_table(root, track, names, kind, dict(base, op=["table", kind]), ctx)
+            ctx.transition()
 
 
 def _case(root, hist):
@@ -734,7 +790,9 @@ def replay(case, ctx):
     hist = tuple(tuple(h) for h in case["hist"])
     for h in hist:
         ap(t, h)
-    if "op" in case:
+    if "op" in case and case["op"][0] == "table":
+        check_table(root, t, names_of(t), case["op"][1], case, ctx)
+    elif "op" in case:
         check_op(root, t, snap(t), names_of(t), case["op"], case, ctx)
     else:
         ev = tuple(case["ev"])
